@@ -1,6 +1,7 @@
 (* C07 at DESCRIPTOR level -- the lifted policy against the output-type validation of Script/Spend.v
    (script hash / witness program, standardness limits, byte-level parse, Script semantics), not only
-   against the script part.  Statements only; proofs in Proofs/LiftDesc{Wsh,World,Types,Examples}.v.
+   against the script part.  Statements only; proofs in
+   Proofs/LiftDesc{Wsh,World,Types,WorldTypes,WorldTap,Examples,TypesEx,TapEx}.v.
 
    Composition of existing theorems: C07_hides_no_path / C07_policy_iff_satisfier (Proofs/Lift*.v),
    C04 parse_encode and script_size_ok, C09 wit_bounds_root / static_ops_exact / ext_pk_cost_is_len /
@@ -29,7 +30,7 @@
      kh_binds, collision-freeness    cryptographic, stated on the finite world / on the one pair. *)
 From Verif Require Import Exec Ser Spend Ast Types TypeCheck SatSpec Sat LiftModel LiftLimits TheoremA SatProofs FrameDissat
   CompleteThresh CompleteNonMall DenotSpec LiftFullProofs CodecSpec.
-From Verif Require Import DescSpendModel LiftDescWsh LiftDescWorld LiftDescTypes LiftDescWorldTypes LiftDescExamples LiftDescTypesEx.
+From Verif Require Import DescSpendModel LiftDescWsh LiftDescWorld LiftDescTypes LiftDescWorldTypes LiftDescWorldTap LiftDescExamples LiftDescTypesEx LiftDescTapEx.
 From Verif Require DescSpendExamples.
 From Verif Require SerProofs.
 From Verif Require CodecExt ExtModel ExtProofs ExtCodec.
@@ -410,6 +411,35 @@ Theorem C07_shwsh_dispatch_spending_condition :
 Proof. exact shwsh_dispatch_spending_condition. Qed.
 Print Assumptions C07_shwsh_dispatch_spending_condition.
 
+(* ---- P2TR script path through one leaf with a given control block: the equivalence for a world.
+   [tr_world_ok e ke W m]: keys_ok, keys and world elements <= 520 bytes, pub_in, kh_binds, typed B, wf
+   under SvTapscript, ms_wf Tap, ctx_frag_ok Tap, max_elems < 2^55.  The control block commits to this
+   leaf ([commit_ok (encode m) cb]) and to nothing else (binding, on this control block). ---- *)
+Theorem C07_tr_leaf_spending_condition :
+  forall (e : env) (ke : keyenv), ksort_ok ke -> (forall kbs, e_sigok e kbs [] = false) ->
+  forall (W : wit) (unc : key -> bool) (m : ms) (p : lpolicy),
+    tr_world_ok e ke W m -> unc_agrees ke unc -> lift_ctx Tap unc m = LOk p ->
+  forall (commit_ok : bytes -> bytes -> bool) (outkey cb : bytes),
+    commit_ok (encode ke m) cb = true -> not_annex cb ->
+    (forall sb', commit_ok sb' cb = true -> sb' = encode ke m) ->
+    (leval (assets_of (with_sv e SvTapscript) ke W) p = true <->
+     exists items sb', incl items W /\ verify_tr e outkey commit_ok [] (items ++ [sb'; cb]) = true).
+Proof. exact tr_leaf_spending_condition. Qed.
+Print Assumptions C07_tr_leaf_spending_condition.
+
+Theorem C07_tr_leaf_dispatch_spending_condition :
+  forall (e : env) (ke : keyenv), ksort_ok ke -> (forall kbs, e_sigok e kbs [] = false) ->
+  forall (W : wit) (unc : key -> bool) (m : ms) (p : lpolicy),
+    tr_world_ok e ke W m -> unc_agrees ke unc -> lift_ctx Tap unc m = LOk p ->
+  forall (commit_ok : bytes -> bytes -> bool) (outkey cb : bytes),
+    commit_ok (encode ke m) cb = true -> not_annex cb ->
+    (forall sb', commit_ok sb' cb = true -> sb' = encode ke m) ->
+    blen outkey = 32 ->
+    (leval (assets_of (with_sv e SvTapscript) ke W) p = true <->
+     exists items sb', incl items W /\ verify_spend e commit_ok (spk_tr outkey) [] (items ++ [sb'; cb]) = true).
+Proof. exact tr_leaf_dispatch_spending_condition. Qed.
+Print Assumptions C07_tr_leaf_dispatch_spending_condition.
+
 (* ---- non-vacuity of the "invents no path" theorems of the other output types: the world of C01's
    descriptor examples (or_i(pk(K0),pk(K1)), K0's signature available) satisfies their hypotheses.
    [inv_hyps e sv c ke A se f unc rhs m p] is the conjunction of the hypotheses they share:
@@ -458,3 +488,24 @@ Example C07_sh_scriptsig_rule_not_implied :
                 1650 < blen (serialize ss) /\
                 forall e h, verify_sh e h (serialize ss) [] = false.
 Proof. exact sx_scriptsig_rule_not_implied. Qed.
+
+(* non-vacuity of the P2TR leaf equivalence: 32-byte keys, the same script, nSequence 12, a commitment
+   oracle accepting exactly (this leaf, this control block); both truth values; the validation by
+   evaluation (script path through verify_tr and through the dispatcher) *)
+Example C07_tr_leaf_nonvacuous :
+  forall W, W = tx_W0 \/ W = tx_WA \/ W = tx_WB ->
+  ksort_ok tx_ke /\ (forall kbs, e_sigok tx_e kbs [] = false) /\
+  tr_world_ok tx_e tx_ke W tx_m /\ unc_agrees tx_ke tx_unc /\ lift_ctx Tap tx_unc tx_m = LOk tx_p /\
+  tx_commit (encode tx_ke tx_m) tx_cb = true /\ not_annex tx_cb /\
+  (forall sb', tx_commit sb' tx_cb = true -> sb' = encode tx_ke tx_m) /\ blen tx_outkey = 32.
+Proof. exact tx_world_ok. Qed.
+Example C07_tr_leaf_both_values :
+  leval (assets_of (with_sv tx_e SvTapscript) tx_ke tx_WA) tx_p = true /\
+  leval (assets_of (with_sv tx_e SvTapscript) tx_ke tx_WB) tx_p = true /\
+  leval (assets_of (with_sv tx_e SvTapscript) tx_ke tx_W0) tx_p = false.
+Proof. exact tx_values. Qed.
+Example C07_tr_leaf_validation_by_evaluation :
+  verify_tr tx_e tx_outkey tx_commit [] ([tx_sig 0] ++ [encode tx_ke tx_m; tx_cb]) = true /\
+  verify_spend tx_e tx_commit (spk_tr tx_outkey) [] ([tx_sig 1; []] ++ [encode tx_ke tx_m; tx_cb]) = true /\
+  verify_tr tx_e tx_outkey tx_commit [] ([[]; []] ++ [encode tx_ke tx_m; tx_cb]) = false.
+Proof. exact tx_verify. Qed.
